@@ -80,7 +80,7 @@ type ctx struct {
 
 func main() {
 	flag.Var(&fBlocking, "blocking", "fully qualified function (pkgpath.Recv.Name or pkgpath.Name) treated as blocking: yield before and after")
-	flag.Var(&fReplace, "replace", "Func=statements : replace the body of the named top-level function or Recv.Method")
+	flag.Var(&fReplace, "replace", "Func=statements : replace the body of the named top-level function or Recv.Method; Func^=statements : prepend to it")
 	flag.Var(&fNoYield, "noyield", "function or Recv.Method that is rewritten for determinism but gets no yields")
 	flag.Parse()
 	if *fPkg == "" || *fFiles == "" || *fOut == "" {
@@ -348,7 +348,16 @@ func (c *ctx) rewriteFile(f *ast.File) {
 			}
 			c.curFunc = name
 			replaced := false
+			var prepend []ast.Stmt
 			for _, r := range fReplace {
+				// "Func^=stmts" prepends to the body (which is then instrumented as usual);
+				// "Func=stmts" replaces it.
+				if k, v, ok := strings.Cut(r, "^="); ok && !strings.Contains(k, "=") {
+					if k == name {
+						prepend = append(prepend, parseStmts(v)...)
+					}
+					continue
+				}
 				k, v, ok := strings.Cut(r, "=")
 				if ok && k == name {
 					d.Body.List = parseStmts(v)
@@ -362,7 +371,7 @@ func (c *ctx) rewriteFile(f *ast.File) {
 			if d.Recv != nil {
 				c.typeSubst(d.Recv)
 			}
-			d.Body.List = c.rewriteList(d.Body.List)
+			d.Body.List = append(prepend, c.rewriteList(d.Body.List)...)
 		case *ast.GenDecl:
 			d.Doc = filterDoc(d.Doc)
 			for _, sp := range d.Specs {
